@@ -215,6 +215,31 @@ def h_unit_layer(eng, names, bound):
     eng.prove((q * ureg.Quantity(1, v)).units == u * v, "quantity-mul-units")
     eng.prove((q / ureg.Quantity(1, v)).units == u / v, "quantity-div-units")
     eng.prove((q**2).units == u**2, "quantity-pow-units")
+    # a unit combined with a quantity, a number or a bare container
+    r = u * q
+    eng.prove(And(r.units == u * u, Eq(r.magnitude, x)), "unit*quantity")
+    r = q * u
+    eng.prove(And(r.units == u * u, Eq(r.magnitude, x)), "quantity*unit")
+    r = v / q if not bool(Eq(x, 0)) else None
+    if r is not None:
+        eng.prove(And(r.units == v / u, Eq(r.magnitude, 1 / x)), "unit/quantity")
+        r = u / x
+        eng.prove(And(r.units == u, Eq(r.magnitude, 1 / x)), "unit/number")
+        r = x / u
+        eng.prove(And(r.units == u**-1, Eq(r.magnitude, x)), "number/unit")
+    r = x * u
+    eng.prove(And(r.units == u, Eq(r.magnitude, x)), "number*unit")
+    r = q / v
+    eng.prove(And(r.units == u / v, Eq(r.magnitude, x)), "quantity/unit")
+    # equality of a unit with the quantity 1*unit, with containers and with other things
+    # (Quantity(1, u) == u is False in pint -- Quantity.__eq__ does not know units; the
+    # properties do not speak about that mixed comparison, noted in DESIGN.md)
+    eng.prove(u == ureg.Quantity(1, u), "unit==quantity-one")
+    eng.prove(Iff(u == ureg.Quantity(x, u), Eq(x, 1)), "unit==quantity-iff-one")
+    eng.prove(u == u._units and not (u != u._units), "unit==container")
+    eng.prove(Iff(u != v, Not(And(Eq(e1, f1), Eq(e2, f2)))), "unit-ne-is-negation")
+    eng.prove(not (u == "not a unit at all"), "unit-ne-unrelated-object")
+    eng.prove(u == u * 1 and u == (u / 1), "unit-times-one-is-the-unit")
     # dimensionality homomorphism
     D1, D2 = dict(inf[n1].dims), dict(inf[n2].dims)
     dims = sorted(set(D1) | set(D2))
